@@ -122,6 +122,9 @@ func (s *c12Sess) drain() [][]int64 {
 	defer s.poll.mu.Unlock()
 	var res [][]int64
 	for _, l := range s.poll.lines {
+		if l.Id < 0 {
+			continue // the rest of a line that was cut off when the poll was cancelled: not received
+		}
 		res = append(res, []int64{l.Id, int64(l.Reply), c12Crc(l.Data)})
 	}
 	return res
@@ -192,7 +195,7 @@ func c12History(c *rigChild, st rigStep, r *rigResult) {
 			last = fmt.Sprintf("%d.%d", s.got[n-1][0], s.got[n-1][1])
 		}
 		s.poll.mu.Lock()
-		s.note += fmt.Sprintf("poll %d ended by the server (status %d %s) after %d lines; ", s.polls, s.poll.status, s.poll.err, len(s.got))
+		s.note += fmt.Sprintf("poll %d ended by the server (status %d %s %q) after %d lines; ", s.polls, s.poll.status, s.poll.err, s.poll.body, len(s.got))
 		s.poll.mu.Unlock()
 		openPoll(s, last)
 	}
